@@ -243,7 +243,8 @@ func genDecode(g *gen) {
 			return hexName(g.pickS(pats...))
 		}
 		g.newCase()
-		g.emit("D kconf %s %s", lst("^g", "^g[01]", "a$"), lst("1$", "^x", "team"))
+		// group ids may contain blanks, and so may the expressions that name them
+		g.emit("D kconf %s %s", lst("^g", "^g[01]", "a$", "^g 3", "g [0-9]$"), lst("1$", "^x", "team", "^g 3$", "m a|g 3"))
 	}
 	for i := 0; i < n; i++ {
 		curCfg = cfgs[g.intn(len(cfgs))]
